@@ -287,9 +287,9 @@ STD_POOL = {'decimal': ['1.5', '-2', 'NaN', 3, 2.5, 'abc', '1e5'], 'fraction': [
                 'pattern_bytes': [b'a+', b'(', b'x'],
                 'enum_tuple': [[1, 2], (3, 4), [[1], [2]], [1, [2]], [1, 2, 3], 5, 'x', [1, 2.0], [True, 2], [{}, 2], []],
                 'enum_complex': [1j, 2j, 0, -1j, 'x', 1, [1j]], 'enum_limit': [['limit', None], ['limit', 2], ('limit', 1), 'x', ['limit'], ['limit', 'a']],
-                'vol_int': [5, [1, 2], [], 'x', [1, 'x'], 2.5, (3,)],
-                'vol_tuple': [[1, 2], [[1, 2], [3, 4]], (5, 6), [1], [1, 2, 3], 'x', [[1, 2], [3]], [1, 'x']],
-                'vol_list': [[1, 2], [[1], [2, 3]], [], 5, [[1], 'x'], [1, [2]]],
+                'vol_int': [5, [1, 2], [], 'x', [1, 'x'], 2.5, (3,), [7], [0], [[7]]],
+                'vol_tuple': [[1, 2], [[1, 2], [3, 4]], (5, 6), [1], [1, 2, 3], 'x', [[1, 2], [3]], [1, 'x'], [[1, 2]], [[0, 0]]],
+                'vol_list': [[1, 2], [[1], [2, 3]], [], 5, [[1], 'x'], [1, [2]], [[1]], [[]], [[1, 2]]],
                 'vol_range': [[0, 10, 11], {'start': 0, 'end': 10, 'n': 6}, [[0, 10, 11]], [0, 10], 'x', [[0, 10, 11], [1, 2, 3]]],
                 'range_int': [[0, 10, 11], {'start': 0, 'end': 10, 'n': 6}, {'start': 0, 'end': 10, 'step': 2}, [0], 'x', {'start': 0}]}
 for _k in ('datetime', 'date', 'time'):
